@@ -287,11 +287,12 @@ class Arm(Robot):
                         theta_temp[j] = random.uniform(-np.pi, np.pi)
                     theta, success = fmr.IKinSpace(
                             self.screw_list, self._end_effector_home.gTM(),
-                            goal_position.gTM(), theta_init,
+                            goal_position.gTM(), theta_temp,
                             self.pos_tolerance, self.rot_tolerance, max_iters=max_iters)
                     i = i + 1
                 if success:
                     self._end_effector_pos_global = goal_position
+        self.FK(fsr.angleMod(theta), protect=True)
         return theta, success
 
     def constrainedIK(self, goal_position : tm, theta_init : 'np.ndarray[float]' = None,
